@@ -11,6 +11,7 @@ from vf.peers import Peer, healthy_reply
 
 LEVEL = "exploration"
 SHARDS = {"quick": 8, "thorough": 16}
+OPTIMIZED_SHARDS = 2      # the last two shards run under `python -O` (the library's assert statements are stripped)
 TIMEOUT = {"quick": 240, "thorough": 1800}
 RULE = ("stacks = 0-4 header dictionaries (constructor headers + nested _additional_headers blocks) over 7 base names in "
         "random letter case, including content-length, Content-TYPE and user-agent, with str / int / float / bool / None "
@@ -24,6 +25,7 @@ RULE = ("stacks = 0-4 header dictionaries (constructor headers + nested _additio
         "distinct = distinct (stack, request kind, exit pattern); non-trivial = at least one pushed header and the "
         "received header lines were compared with the reference merge.")
 ASSUMPTIONS = [
+    "two of the shards run under `python -O` (see OPTIMIZED_SHARDS): what the library does inside assert statements is not relied upon",
     "no single dictionary holds two case variants of one name (the property does not order entries inside one dict)",
     "Host and Accept-Encoding are emitted by http.client itself and are not generated as custom names",
     "header values are printable ASCII without surrounding whitespace",
